@@ -336,6 +336,10 @@ func (vc *VC) StrLit(s string) *Term {
 // literal distinctness must be emitted at the end
 func (vc *VC) strAxioms() []string {
 	var out []string
+	if vc.declared["strcat"] {
+		vc.declare("strlen", "(declare-fun strlen (Str) Int)")
+		out = append(out, "(assert (forall ((a Str) (b Str)) (! (= (strlen (strcat a b)) (+ (strlen a) (strlen b))) :pattern ((strcat a b)))))")
+	}
 	if len(vc.strLits) > 1 {
 		var names []string
 		for _, k := range sortedKeys(vc.strLits) {
